@@ -120,6 +120,18 @@ CLAIMED = {
         "note": "Verbs consulting NR/FNR after a record-dropping verb are excluded as the statement says. zstd cases need the zstd binary (skipped and counted if absent). Pipe timing is sampled, not controlled.",
         "design_ref": "DESIGN.md section 4 C05",
     },
+    "C12": {
+        "level": "exploration",
+        "technique": "property-based testing: Hypothesis-generated heterogeneous streams and field lists against dict-manipulation reference models, inverse-pair and partition laws, and verb-vs-DSL differential",
+        "text": ("Generated streams (0-6 records over a 5-name universe, 13-field wide records rotated at random, empties/spaces/number spellings) through 38 "
+                 "scenarios: cut -f/-o/-x/-r, template, unsparsify (--fill-with, -f), regularize, fill-empty (-v, -S), reorder (-f, -e), rename (plain, -r with "
+                 "captures, onto existing names = bystander predicate only), label, sort-within-records, sparsify (-f); laws: cut partition, rename a,b then b,a "
+                 "identity, rename then cut -x of the old name, template/cut -f then rename sequences, unsparsify rectangle in first-seen order; inverse pairs "
+                 "nest explode/implode (values/pairs, across records/fields), reshape wide-to-long/long-to-wide, flatten/unflatten, json-stringify/json-parse; "
+                 "verb == DSL for sec2gmt (-3), fill-empty, sub/gsub/ssub, plus unspace, case, altkv against the documented examples."),
+        "note": "Trusted: the models in props/c12.py (from usage texts and reference-verbs.md examples). sub/gsub/ssub/case are compared under -S (the functions are defined on strings). reorder -b/-a/-r and case -s/-t are not covered.",
+        "design_ref": "DESIGN.md section 4 C12",
+    },
 }
 
 NOT_YET = "check not built yet in this session (see DESIGN.md section 8 build order); will be claimed when its sub-checks run"
